@@ -62,6 +62,7 @@ fn classify_arg(ty: Intern<Ty>) -> Option<[Class; 8]> {
             | Ty::Pointer { .. }
             | Ty::RawPtr { .. }
             | Ty::ConcreteFunction { .. }
+            | Ty::FunctionPointer { .. }
             | Ty::File(_) => {
                 classes[offset / 8] = classes[offset / 8].merge_eigthbyte(Int);
                 if ty.size() > 8 {
